@@ -15,7 +15,7 @@ def proof_stage(v, prop, extra_obligations=0, extra_discharged=0):
     gen_errors = translate.regenerate_all()
     problems = C.coq_lint()
     deps = {"C18": ["freeze"], "C17": ["seed"], "C08": ["api"], "C04": ["uid"], "C06": ["filter", "stats"],
-            "C15": ["subfaces"], "C16": ["gens"], "C01": ["mutators"], "C02": ["dimutators", "mutators"], "C03": ["scmutators", "mutators"]}.get(prop, [])
+            "C15": ["subfaces"], "C16": ["gens"], "C01": ["mutators"], "C02": ["dimutators"], "C03": ["scmutators"], "C05": ["mutators", "dimutators"]}.get(prop, [])
     for dep in deps:
         if dep in gen_errors:
             problems = problems + [f"translator {dep} failed (fail-closed): {gen_errors[dep]}"]
